@@ -523,6 +523,13 @@ class IOLoop(Configurable):
                 # (If we neither cancel nor wait for the task, a warning
                 # will be logged).
                 assert future_cell["future"] is not None
+                if future_cell["future"].done():
+                    # The function finished in the same iteration as the
+                    # timeout expired (e.g. timeout=0). The callback added by
+                    # run() is about to stop the loop; stopping it here as
+                    # well would leave that callback behind to stop the
+                    # *next* start() prematurely.
+                    return
                 if not future_cell["future"].cancel():
                     self.stop()
 
